@@ -121,8 +121,9 @@ func compare0(r *mon.Rec, s subject, rp replay, ref map[string]string, ops []op,
 }
 
 func judge(r *mon.Rec, kind string, idx int, s subject, rng *rand.Rand) {
-	r.Eval(1)
 	rp := replay{kind, idx}
+	r.Current(rp)
+	r.Eval(1)
 	base := s.mk()
 	n := len(base)
 	if n == 0 {
@@ -453,6 +454,7 @@ func TestCheck(t *testing.T) {
 		judge(r, rp.Kind, rp.Idx, subjectFor(r, rp.Kind, rp.Idx, typed), r.Rand("perm", rp.Idx))
 		return
 	}
+	r.Watchdog(60 * time.Second)
 	n := r.Pick(12000, 300000)
 	if os.Getenv("VERIF_STAGE") == "race" {
 		// reader-writes detector: any race report names a write performed by a "read-only" method
